@@ -488,8 +488,21 @@ pub fn run_block_c18(verif_seed: u64, block: u64, n_bases: usize, opts: &BlockOp
             let batches: Vec<(usize, usize)> = cands.iter().copied().filter(|&(t, i)| g.spec.threads[t].ops[i].call.batch_len() >= 2).collect();
             let (t, i) = if !batches.is_empty() && r.chance(4, 5) { *r.pick(&batches) } else { *r.pick(&cands) };
             let m = g.spec.threads[t].ops[i].call.batch_len();
+            // every callback index of the batch; for the rare large batches a sample of them
+            // (both ends, the middle, multiples of small powers of two +-1, a few random ones)
+            let ks: Vec<usize> = if m <= 16 {
+                (0..m).collect()
+            } else {
+                let mut v = vec![0, 1, m - 2, m - 1, m / 2, m / 4, 3 * m / 4, 31.min(m - 1), 32.min(m - 1), 63.min(m - 1), 64.min(m - 1), 127.min(m - 1), 128.min(m - 1)];
+                for _ in 0..4 {
+                    v.push(r.below(m));
+                }
+                v.sort();
+                v.dedup();
+                v
+            };
             for panic in [false, true] {
-                for k in 0..m {
+                for &k in &ks {
                     let mut spec = g.spec.clone();
                     spec.threads[t].ops[i].plan = plan_for(t, i, k, panic);
                     let res = run_spec(&spec, Prop::C18, &RunOpts::default());
@@ -501,7 +514,7 @@ pub fn run_block_c18(verif_seed: u64, block: u64, n_bases: usize, opts: &BlockOp
                 }
             }
             // --- re-entrancy at every callback index: callback k calls back into the interpolator
-            for k in 0..m {
+            for &k in &ks {
                 let mut spec = g.spec.clone();
                 let slot = spec.threads[t].ops[i].slot;
                 let mut plan = vec![Act::Ok; k];
